@@ -22,6 +22,7 @@ func init() {
 			"R2": "see C01-R4",
 			"R3": "see C16-R1 (TTL < 3*H is rejected)",
 			"R5": "the refresh ticker's period is cfg.HeartbeatInterval (C03-R8, shared): together with R3 the record is refreshed three times per TTL",
+			"R6": "shared with C03-R9: the refresh loop of a term runs under that term's context (no refresher of an earlier term survives into a later term and collides with it)",
 			"R4": "the refresh attempt's time-out expression is max(H/2, 1s) (C03-R1, shared): never below H/2, so latencies below H/2 cause no refresh failure",
 		},
 	})
@@ -214,6 +215,8 @@ func checkC07(c *Ctx) {
 	attemptTimeoutRule(c, "R4")
 	// R5: shared with C03-R8: refreshes are issued every HeartbeatInterval (with TTL >= 3H, R3)
 	refreshPeriodRule(c, "R5")
+	// R6: shared with C03-R9: no second refresh loop of an earlier term collides with this term's
+	termLoopRule(c, "R6")
 	// R2 shared with C01-R4
 	ownRevisionRule(c, "R2")
 	// R3 shared with C16-R1: the TTL margin cube is in the reject table
